@@ -48,11 +48,22 @@ Theorem C16_construct_normalised : forall (F : OF) tol eps ps shape d,
 Proof. exact construct_normalised. Qed.
 Print Assumptions C16_construct_normalised.
 
-(* the marginal depends only on the set of retained variables, not on the order they are listed in *)
+(* the marginal depends only on the SET of retained variables, not on the order they are listed in: a valid listing and any
+   permutation of it give the identical distribution; an invalid listing stays invalid (same_outcome: MOk x / MOk x, or error / error —
+   WHICH error, ValueError or KeyError, is decided by the first offending entry, see the next theorem) *)
 Theorem C16_marginalize_order_irrelevant : forall (F : OF) tol d rem rem',
-  Permutation rem rem' -> marginalize F tol d rem = marginalize F tol d rem'.
+  Permutation rem rem' -> same_outcome F (marginalize F tol d rem) (marginalize F tol d rem').
 Proof. exact marginalize_order_irrelevant. Qed.
 Print Assumptions C16_marginalize_order_irrelevant.
+
+(* the error branch of marginalize, exactly: either the sequential check stops with code 4 (ValueError: index out of range) or
+   5 (KeyError: index listed twice), or every listed index is in range and none is repeated *)
+Theorem C16_marginalize_error_branch : forall (F : OF) (d : dist F) rem,
+  (exists c, (c = 4 \/ c = 5)%nat /\ remain_check (length (d_shape F d)) [] rem = Some c) \/
+  (remain_check (length (d_shape F d)) [] rem = None /\
+   Forall (fun i => (0 <= i < Z.of_nat (length (d_shape F d)))%Z) rem /\ has_dup (map Z.to_nat rem) = false).
+Proof. exact marginalize_valid_iff. Qed.
+Print Assumptions C16_marginalize_error_branch.
 
 (* marginalisation preserves total mass: the raw marginal, summed over all retained multi-indices, equals the
    sum of the whole tensor — every shape of positive sizes, every retained set (given as a mask over the axes) *)
@@ -89,6 +100,88 @@ Theorem C16_joint_is_marginal_times_conditional : forall (F : OF) sh ps fixed k'
   cmul F (kdiv F (slice F sh ps fixed k') tot) marginal = slice F sh ps fixed k'.
 Proof. exact joint_is_marginal_times_conditional. Qed.
 Print Assumptions C16_joint_is_marginal_times_conditional.
+
+(* ---- layout: Z-level index maps (translated code) = nat-level row-major index of the tensor theorems; accessors as coded;
+        ensembles produced by measurements; marginals / conditionals stay normalised *)
+From QV.Model Require Import C16_Ensemble.
+From QV.Proofs Require Import C16_Layout.
+
+Theorem C16_index_maps_agree : forall sh idx k,
+  prodz (map Z.of_nat sh) = Z.of_nat (prodn sh) /\
+  row_major (map Z.of_nat sh) (map Z.of_nat idx) = Z.of_nat (rowmajorn sh idx) /\
+  digits (map Z.of_nat sh) (Z.of_nat k) = map Z.of_nat (digitsn sh k).
+Proof. intros sh idx k. split; [apply prodz_of_nat|split; [apply row_major_of_nat|apply digits_of_nat]]. Qed.
+Print Assumptions C16_index_maps_agree.
+
+(* __getitem__ / state with an int argument: Python's sequence index (negative counts from the end, IndexError = 9 outside) *)
+Theorem C16_index_get_int : forall (A : Type) (l : list A) shape i,
+  ((0 <= i < Z.of_nat (length l))%Z -> index_get l shape (AInt i) = match nth_error l (Z.to_nat i) with Some v => MOk v | None => MErr 9 end) /\
+  ((- Z.of_nat (length l) <= i < 0)%Z -> index_get l shape (AInt i) = match nth_error l (length l - Z.to_nat (- i)) with Some v => MOk v | None => MErr 9 end) /\
+  ((i < - Z.of_nat (length l) \/ Z.of_nat (length l) <= i)%Z -> index_get l shape (AInt i) = MErr 9).
+Proof. exact @index_get_int. Qed.
+Print Assumptions C16_index_get_int.
+
+(* ... with a tuple whose components are all in range: the row-major entry — every shape, every index *)
+Theorem C16_index_get_tuple_in_range : forall (A : Type) (l : list A) sh idx dflt, in_rangen sh idx -> length l = prodn sh ->
+  index_get l (map Z.of_nat sh) (ATuple (map Z.of_nat idx)) = MOk (nth (rowmajorn sh idx) l dflt).
+Proof. exact @index_get_tuple_in_range. Qed.
+Print Assumptions C16_index_get_tuple_in_range.
+
+Theorem C16_index_get_tuple_rank_mismatch : forall (A : Type) (l : list A) shape t,
+  length shape <> length t -> index_get l shape (ATuple t) = MErr 2.
+Proof. exact @index_get_tuple_rank_mismatch. Qed.
+Print Assumptions C16_index_get_tuple_rank_mismatch.
+
+(* states and probabilities of an ensemble are addressed through the SAME position, whatever the argument *)
+Theorem C16_ensemble_same_position : forall (A B : Type) (states : list A) (ps : list B) shape a, length states = length ps ->
+  match resolve_index (Z.of_nat (length ps)) shape a with
+  | MOk k => exists s p, index_get states shape a = MOk s /\ nth_error states k = Some s /\ index_get ps shape a = MOk p /\ nth_error ps k = Some p
+  | MErr c => index_get states shape a = MErr c /\ index_get ps shape a = MErr c
+  end.
+Proof. exact @ensemble_same_position. Qed.
+Print Assumptions C16_ensemble_same_position.
+
+(* measuring an ensemble (any old shape, any outcome shape of the instrument): the new table has prod(old_shape ++ mshape)
+   entries, and its entry at (old multi-index ++ outcome multi-index) is entry (outcome multi-index) of the block produced from
+   old entry (old multi-index) — earlier measurement first, nothing shifts whatever the probabilities are *)
+Theorem C16_measure_all_layout : forall (E : Type) (meas : E -> list E) old old_shape mshape idx j dflt,
+  (forall e, length (meas e) = prodn mshape) -> length old = prodn old_shape ->
+  in_rangen old_shape idx -> in_rangen mshape j ->
+  length (measure_all meas old) = prodn (measured_shape old_shape mshape) /\
+  in_rangen (measured_shape old_shape mshape) (idx ++ j) /\
+  nth (rowmajorn (measured_shape old_shape mshape) (idx ++ j)) (measure_all meas old) dflt =
+  nth (rowmajorn mshape j) (meas (nth (rowmajorn old_shape idx) old dflt)) dflt.
+Proof. exact @measure_all_layout. Qed.
+Print Assumptions C16_measure_all_layout.
+
+(* every history of measurements keeps the invariant (table length = product of the shape) the one-step theorem needs,
+   and the shape is the concatenation of the outcome shapes, earliest first *)
+Theorem C16_measure_chain_invariant : forall (E : Type) (chain : list ((E -> list E) * list nat)) entries shape,
+  Forall (fun ms => forall e, length (fst ms e) = prodn (snd ms)) chain -> length entries = prodn shape ->
+  length (fst (measure_chain chain entries shape)) = prodn (snd (measure_chain chain entries shape)) /\
+  snd (measure_chain chain entries shape) = shape ++ concat (map snd chain).
+Proof. intros E chain entries shape H1 H2. split; [now apply measure_chain_length|apply measure_chain_shape]. Qed.
+Print Assumptions C16_measure_chain_invariant.
+
+(* accepted, non-zero marginals and conditionals are entrywise non-negative and sum to 1 within the validation tolerance *)
+Theorem C16_marginalize_normalised : forall (F : OF) tol d rem d', kle F (c0 F) tol -> tol <> c0 F ->
+  marginalize F tol d rem = MOk d' -> d_zero F d' = false -> normalised F tol d'.
+Proof. exact marginalize_normalised. Qed.
+Print Assumptions C16_marginalize_normalised.
+
+Theorem C16_conditionalize_normalised : forall (F : OF) tol d idxs vals d', kle F (c0 F) tol -> tol <> c0 F ->
+  conditionalize F tol d idxs vals = MOk d' -> d_zero F d' = false -> normalised F tol d'.
+Proof. exact conditionalize_normalised. Qed.
+Print Assumptions C16_conditionalize_normalised.
+
+(* non-vacuity: a 2 x 3 table measured with a 2-outcome instrument; entry ((1,2),(1)) is the second entry of the block of old entry 5 *)
+Example C16_measure_example :
+  let meas := fun e : nat => [(10 * e)%nat; (10 * e + 1)%nat] in
+  nth (rowmajorn (measured_shape [2;3]%nat [2]%nat) ([1;2] ++ [1])%nat) (measure_all meas [0;1;2;3;4;5]%nat) 0%nat = 51%nat
+  /\ index_get [0;1;2;3;4;5]%nat [2;3]%Z (ATuple [1;2]%Z) = MOk 5%nat /\ index_get [0;1;2;3;4;5]%nat [2;3]%Z (AInt (-1)%Z) = MOk 5%nat
+  /\ index_get [0;1;2;3;4;5]%nat [2;3]%Z (ATuple [0;4]%Z) = MOk 4%nat   (* components are not range-checked by the code *)
+  /\ index_get [0;1;2;3;4;5]%nat [2;3]%Z (AInt 6%Z) = MErr 9.
+Proof. vm_compute. repeat split; reflexivity. Qed.
 
 (* non-vacuity over Qc: a 2x2 tensor with a sub-threshold entry is accepted, zeroed and renormalised *)
 Example C16_construct_example :
